@@ -47,33 +47,28 @@ def parseChunk : Nat → List Nat → Option Nat
     | none => none
     | some d => parseChunk (acc * 10 + d) bs
 
-/-- `carrying_mul` of all limbs by `base`; a non-zero final carry is `PosOverflow` -/
-def mulChk (ubits : Nat) (out : Nat) : Except IErr Nat :=
-  if out * BASE < 2 ^ ubits then .ok (out * BASE) else .error .posOverflow
-
-/-- `out.checked_add(from_digit(n))` -/
-def addChk (ubits : Nat) (out n : Nat) : Except IErr Nat :=
-  if out + n < 2 ^ ubits then .ok (out + n) else .error .posOverflow
-
 /-- The `while start < buf.len()` loop of `from_buf_radix_internal` (default radix branch), one byte at
 a time. State: `out` (the accumulator, already multiplied by `base` once the current chunk has been
 entered), `n` (value of the digits of the current chunk read so far), `k` (how many of them).
-Order of checks per chunk as in the code: multiply (overflow), then the 19 digits (invalid digit), then
-add (overflow). -/
+Order of checks per chunk as in the code: multiply (`carrying_mul` of all limbs by `base`, a non-zero
+final carry is `PosOverflow`), then the 19 digits (`InvalidDigit`), then `checked_add` (`PosOverflow`).
+(Written with plain `if`s: a `match` on an `Except` scrutinee containing `out * BASE` makes `simp`'s
+matcher reduction unfold the multiplication by the literal.) -/
 def go (ubits : Nat) (out n k : Nat) : List Nat → Except IErr Nat
-  | [] => if k = 0 then .ok out else addChk ubits out n
+  | [] =>
+    if k = 0 then .ok out
+    else if out + n < 2 ^ ubits then .ok (out + n) else .error .posOverflow
   | b :: bs =>
-    match (if k = 0 then mulChk ubits out else .ok out) with
-    | .error e => .error e
-    | .ok out1 =>
+    if k = 0 ∧ ¬ (out * BASE < 2 ^ ubits) then .error .posOverflow
+    else
       match digitOf b with
       | none => .error .invalidDigit
       | some d =>
         if k + 1 = POWER then
-          match addChk ubits out1 (n * 10 + d) with
-          | .error e => .error e
-          | .ok out2 => go ubits out2 0 0 bs
-        else go ubits out1 (n * 10 + d) (k + 1) bs
+          if (if k = 0 then out * BASE else out) + (n * 10 + d) < 2 ^ ubits then
+            go ubits ((if k = 0 then out * BASE else out) + (n * 10 + d)) 0 0 bs
+          else .error .posOverflow
+        else go ubits (if k = 0 then out * BASE else out) (n * 10 + d) (k + 1) bs
 
 /-- `BUint::<N>::from_buf_radix_internal::<true, true>(buf, 10, leading_sign)` on the bytes after the
 sign (`ds` non-empty): first chunk of `len % 19` (or 19) digits, then full chunks of 19. -/
@@ -84,25 +79,29 @@ def parseU (ubits : Nat) (ds : List Nat) : Except IErr Nat :=
   | none => .error .invalidDigit
   | some first => go ubits first 0 0 (ds.drop split)
 
-/-- `BInt::<N>::from_str_radix(src, 10)` with `N * 64 = bits`. -/
+/-- the tail of `BInt::<N>::from_str_radix`: range check of the magnitude `uint` against the sign
+(`uint.bit(BITS - 1) && uint.trailing_zeros() != BITS - 1` ⇔ `2^(bits-1) ≤ u ∧ u ≠ 2^(bits-1)`), and
+`PosOverflow` of the magnitude reported as `NegOverflow` for a negative text. -/
+def finishInt (bits : Nat) (negative : Bool) : Except IErr Nat → Except IErr Int
+  | .ok u =>
+    if negative then
+      if 2 ^ (bits - 1) ≤ u ∧ u ≠ 2 ^ (bits - 1) then .error .negOverflow else .ok (-(u : Int))
+    else
+      if 2 ^ (bits - 1) ≤ u then .error .posOverflow else .ok (u : Int)
+  | .error e => if e = .posOverflow ∧ negative = true then .error .negOverflow else .error e
+
+/-- `BInt::<N>::from_str_radix(src, 10)` with `N * 64 = bits`:
+`buf[0] == b'-'` ⇒ `negative, leading_sign`; `buf[0] == b'+'` ⇒ `leading_sign`;
+`leading_sign && buf.len() == 1` ⇒ `InvalidDigit`; the digits are the bytes after the sign. -/
 def parseInt (bits : Nat) (s : List Nat) : Except IErr Int :=
   match s with
   | [] => .error .empty
   | c :: rest =>
-    let negative : Bool := c == 45
-    let leadingSign : Bool := c == 45 || c == 43
-    if leadingSign && rest.isEmpty then .error .invalidDigit
-    else
-      match parseU bits (if leadingSign then rest else s) with
-      | .ok u =>
-        if negative then
-          -- `uint.bit(BITS - 1) && uint.trailing_zeros() != BITS - 1`
-          if 2 ^ (bits - 1) ≤ u ∧ u ≠ 2 ^ (bits - 1) then .error .negOverflow
-          else .ok (-(u : Int))
-        else
-          if 2 ^ (bits - 1) ≤ u then .error .posOverflow else .ok (u : Int)
-      | .error e =>
-        if e = .posOverflow ∧ negative then .error .negOverflow else .error e
+    if c = 45 then
+      if rest.isEmpty then .error .invalidDigit else finishInt bits true (parseU bits rest)
+    else if c = 43 then
+      if rest.isEmpty then .error .invalidDigit else finishInt bits false (parseU bits rest)
+    else finishInt bits false (parseU bits (c :: rest))
 
 /-! ## `FromStr for Decimal / PreciseDecimal` -/
 
